@@ -22,6 +22,9 @@ def run(ctx):
     tot = rp["total"]
     if not nfind and tot["diverged"]:
         div = [m for m in rp["mismatches"] if m.get("class") == "diverged"]
+        import os
+        os.makedirs(os.path.join(vf.VERIF, "out", "logs"), exist_ok=True)
+        vf.write_json(os.path.join(vf.VERIF, "out", "logs", "%s-divergences.json" % ctx.pid), div[:20])
         raise vf.Infra("the code does not follow PeerReg.tla in %d replayed paths although no forbidden loss / delivery "
                        "was observed, e.g. step %s fields %s after %s" % (
                            tot["diverged"], div[0].get("a"), div[0].get("fields"),
